@@ -105,6 +105,16 @@ def make_scores(case):
     dt = np.dtype(case.get("dtype", "float64"))     # the values are exactly representable in the chosen dtype
     pos = np.array([fl(x) for x in case["pos"]], dtype=float).astype(np.dtype(case.get("dtype_pos", dt)))
     neg = np.array([fl(x) for x in case["neg"]], dtype=float).astype(np.dtype(case.get("dtype_neg", dt)))
+    if case.get("cls") == "fraud":
+        # the same data as the subclass FraudScores (scores in [0,1], equal_class fixed to 'pos'): every threshold-setting
+        # property of Scores is inherited
+        import warnings
+        from score_analysis.applications.doc_fraud import FraudScores
+        assert case["ec"] == "pos"
+        with warnings.catch_warnings():
+            warnings.simplefilter("ignore")
+            return FraudScores(genuines=pos, frauds=neg, nb_easy_genuines=case["ep"], nb_easy_frauds=case["en"],
+                               score_class="genuine" if case["sc"] == "pos" else "fraud")
     return Scores(pos, neg, nb_easy_pos=case["ep"], nb_easy_neg=case["en"], score_class=case["sc"], equal_class=case["ec"])
 
 
